@@ -1396,7 +1396,7 @@ main(int argc, char** argv)
       guarded("overlap_interpolate", [&] { run_overlap_1d(rng); });
       guarded("overlap_interpolate (iterators)", [&] { run_overlap_iter(rng); });
     }
-  const int nzoom = thorough ? 1500 : 70;
+  const int nzoom = thorough ? 1500 : 400;
   for (int k = 0; k < nzoom; ++k)
     guarded("zoom_image", [&] { run_zoom_case(rng); });
   const int ninv = thorough ? 400 : 40;
